@@ -62,13 +62,18 @@ class PlainName:
                 f"Resolving obj crossref: {obj_ref.cls}:{obj_ref.obj_name}"
             )
 
-        def _inner_resolve_link_rule_ref(cls, obj_name):
+        def _inner_resolve_link_rule_ref(cls, obj_name, visited=None):
             """
             Depth-first resolving of link rule reference.
             """
             if cls._tx_type is RULE_ABSTRACT:
+                # Abstract rules may reference each other circularly
+                visited = set() if visited is None else visited
+                if id(cls) in visited:
+                    return None
+                visited.add(id(cls))
                 for inherited in cls._tx_inh_by:
-                    result = _inner_resolve_link_rule_ref(inherited, obj_name)
+                    result = _inner_resolve_link_rule_ref(inherited, obj_name, visited)
                     if result:
                         return result
             elif cls._tx_type == RULE_COMMON and id(cls) in get_parser(obj)._instances:
